@@ -1,16 +1,10 @@
 """C03 - Partial evaluation commutes with evaluation (functions, constraints, instances)."""
 from vx import core, v1types
 from vx.props import common
+from vx.units.algebra import PMERGE_STUBS
 from vx.units import evaluate as ev
 
-STUBS = '''// ---- assumed callee contract of Polynomial::partial_evaluate (BTreeMap keyed by Vec<u64>: not within reach): same shape as the proved Linear / Quadratic
-// contracts, with the epsilon-dropped remainder left uninterpreted
-impl Polynomial {
-    #[verifier::external_body]
-    pub fn partial_evaluate(&mut self, state: &State) -> (r: Result<BTreeSet<u64>, VErr>)
-        ensures r is Ok, pe_rel(Function { function: Some(FunctionEnum::Polynomial(*old(self))) }, Function { function: Some(FunctionEnum::Polynomial(*final(self))) }, state.entries@, r->Ok_0@),
-    { unimplemented!() }
-}
+STUBS = '''// ---- assumed helper contract ----
 // the loop `for d in self.decision_variable_dependency.values_mut() { used.append(&mut d.partial_evaluate(state)?) }`:
 // HashMap::values_mut (iteration over &mut values) is outside Verus; declared substitution by this helper (T5)
 #[verifier::external_body]
@@ -41,14 +35,16 @@ def build(asm, tier):
     asm.file('prelude/btree_entry.rs')
     asm.file('spec/merge_spec.rs')
     asm.file('spec/kmerge_spec.rs')
+    asm.file('prelude/vmap_model.rs')
     asm.file('spec/qpe_spec.rs')
+    asm.file('spec/padd_spec.rs')
+    asm.file('spec/ppe_spec.rs')
     asm.file('spec/pe_spec.rs')
     asm.raw('} // mod lib\npub mod units {\n' + common.UNITS_USES + 'broadcast use super::lib::lemma_swap_removed_sum, super::lib::lemma_swap_removed_ids, super::lib::ax_default_f64;\n')
-    asm.raw(STUBS + ev.QPE_HELPERS + ev.linear_new_stub(), 'assumed callee contracts')
+    asm.raw(STUBS + ev.QPE_HELPERS + ev.linear_new_stub() + PMERGE_STUBS, 'assumed callee contracts')
     asm.stubs.append(dict(unit='Linear::new', proved_in='C02 / C12 (same contract text: the header of the verified unit)'))
-    asm.stubs.append(dict(unit='Polynomial::partial_evaluate', proved_in=''))
     asm.stubs.append(dict(unit='HashMap::values_mut loop of Instance::partial_evaluate', proved_in=''))
-    for u in (ev.linear_partial_evaluate(), ev.quadratic_partial_evaluate(), ev.function_partial_evaluate(), ev.constraint_partial_evaluate(),
+    for u in (ev.linear_partial_evaluate(), ev.quadratic_partial_evaluate(), ev.polynomial_partial_evaluate(), ev.function_partial_evaluate(), ev.constraint_partial_evaluate(),
               ev.removed_constraint_partial_evaluate(), ev.instance_partial_evaluate()):
         asm.unit(u)
     asm.file('spec/c03_lemmas.rs')
@@ -63,10 +59,11 @@ proof fn vacuity_pre(o: v1::Function, n: v1::Function, st: Map<u64, F64>, u: Set
     return dict(
         min_items=8,
         trusted_base=common.TRUSTED_COMMON + common.T4_COLLECTIONS + [
-            'T5 ASSUMED callee contracts (not verified): Polynomial::partial_evaluate (BTreeMap keyed by Vec<u64>), the HashMap::values_mut loop over dependency functions; Linear::new (verified in C02 / C12)',
+            'T5 ASSUMED callee contracts (not verified): the HashMap::values_mut loop over dependency functions; Linear::new (verified in C02 / C12)',
+            'R28: BTreeMap<Vec<u64>, f64> replaced by the model type VMap (prelude/vmap_model.rs: keys compared by content; new / entry().or_default() / remove; listing helper vmap_into_monomials)',
             'T4 std contracts of the BTreeMap entry API (prelude/btree_entry.rs) and the helpers of Quadratic::partial_evaluate: opt_linear_constant (Option::map_or), opt_linear_terms (Option::iter().flat_map), btree_into_pairs (BTreeMap::into_iter in key order); Vec::swap_remove (vstd)',
             'R25: `for x in &mut vec { B }` rewritten to an index loop with `let x = &mut vec[i]; B` (body unchanged)',
         ],
         assumptions=common.A1,
-        not_covered=['Polynomial::partial_evaluate body', 'size of the epsilon-dropped remainder (for Quadratic it is defined: the entries of the exact linear part with |v| <= EPSILON)'],
+        not_covered=['size of the epsilon-dropped remainders (they are defined: Quadratic - the entries of the exact linear part with |v| <= EPSILON; Polynomial - the difference to the specified merge)'],
     )
